@@ -630,6 +630,8 @@ def _get_fcp(
         ).transform(fcp_ast)
     except VisitError as e:
         return _visit_error(filename, e)
+    except RecursionError:
+        return error(f"{filename.name} is nested too deeply")
 
     return Ok(fcp.attempt())
 
